@@ -59,39 +59,103 @@ func (k c38pk) path() string {
 	panic("kind")
 }
 
-func (k c38pk) coq() string {
-	s := hlib.Str
+var c38tokens = map[string]string{"": "kE", "docker": "kDocker", "registry": "kRegistry", "v2": "kV2", "repositories": "kRepos",
+	"_manifests": "kM", "_layers": "kLy", "_uploads": "kU", "blobs": "kB", "sha256": "kS", "tags": "kT", "revisions": "kRv",
+	"data": "kDa", "link": "kL", "current": "kC", "index": "kI", "startedat": "kSt", "hashstates": "kHs"}
+
+// pool of digests with names in coq/Run/C38_run.v (dg0..dg7)
+var c38digests = []string{
+	"ff3a5c916c92643ff77519ffa742d3ec61b7f591b6b7504599d95a4a41134e28",
+	strings.Repeat("a", 64), strings.Repeat("0", 64), strings.Repeat("f", 64),
+	strings.Repeat("0123456789abcdef", 4), strings.Repeat("abcdef0123456789", 4),
+	strings.Repeat("9e", 32), strings.Repeat("c0ff", 16)}
+
+// pathTerm prints a path as the join of its segments, naming the frequent ones.
+func pathTerm(p string) string {
+	segs := strings.Split(p, "/")
+	out := make([]string, len(segs))
+	for i, s := range segs {
+		if t, ok := c38tokens[s]; ok {
+			out[i] = t
+			continue
+		}
+		out[i] = hlib.Str(s)
+		for j, d := range c38digests {
+			if s == d {
+				out[i] = fmt.Sprintf("dg%d", j)
+			}
+		}
+	}
+	return "(J " + hlib.List(out) + ")"
+}
+
+// osub prints a string as an offset into the path when it occurs there (compact case files).
+func osub(path, s string) string {
+	if i := strings.Index(path, s); i >= 0 {
+		return fmt.Sprintf("(Sub %d %d)", i, len(s))
+	}
+	return "(Str " + hlib.Str(s) + ")"
+}
+
+func (k c38pk) coq(path string) string {
+	var args []string
+	idx := -1
+	for i, n := range c38kinds {
+		if n == k.kind {
+			idx = i
+		}
+	}
+	// components are located from the left in the order the layout places them
+	pos := 0
+	add := func(s string) {
+		i := strings.Index(path[pos:], s)
+		if i < 0 {
+			args = append(args, "(Str "+hlib.Str(s)+")")
+			return
+		}
+		args = append(args, fmt.Sprintf("(Sub %d %d)", pos+i, len(s)))
+		pos += i + len(s)
+	}
 	switch k.kind {
 	case "KRevisions", "KTags":
-		return fmt.Sprintf("(%s %s)", k.kind, s(k.repo))
-	case "KRevision":
-		return fmt.Sprintf("(%s %s %s)", k.kind, s(k.repo), s(k.hex))
+		add(k.repo)
+	case "KRevision", "KLayer":
+		add(k.repo)
+		add(k.hex)
 	case "KTagCurrent":
-		return fmt.Sprintf("(%s %s %s)", k.kind, s(k.repo), s(k.tag))
+		add(k.repo)
+		add(k.tag)
 	case "KTagIndex":
-		return fmt.Sprintf("(%s %s %s %s)", k.kind, s(k.repo), s(k.tag), s(k.hex))
-	case "KLayer":
-		return fmt.Sprintf("(%s %s %s %s)", k.kind, hlib.B(k.data), s(k.repo), s(k.hex))
+		add(k.repo)
+		add(k.tag)
+		add(k.hex)
 	case "KBlob":
-		return fmt.Sprintf("(%s %s)", k.kind, s(k.hex))
+		pos = len(c38Root + "/blobs/sha256/") + 2
+		add(k.hex)
 	case "KUploadData", "KUploadStartedAt":
-		return fmt.Sprintf("(%s %s %s)", k.kind, s(k.repo), s(k.uuid))
+		add(k.repo)
+		add(k.uuid)
 	case "KUploadHashStates":
-		return fmt.Sprintf("(%s %s %s %s)", k.kind, s(k.repo), s(k.uuid), s(k.algo))
+		add(k.repo)
+		add(k.uuid)
+		add(k.algo)
 	case "KUploadHashState":
-		return fmt.Sprintf("(%s %s %s %s %s)", k.kind, s(k.repo), s(k.uuid), s(k.algo), s(k.off))
+		add(k.repo)
+		add(k.uuid)
+		add(k.algo)
+		add(k.off)
 	}
-	panic("kind")
+	return fmt.Sprintf("(RK %d %s %s)", idx, hlib.B(k.data), hlib.List(args))
 }
 
 var c38kinds = []string{"KRevisions", "KRevision", "KTags", "KTagCurrent", "KTagIndex", "KLayer", "KBlob",
 	"KUploadData", "KUploadStartedAt", "KUploadHashStates", "KUploadHashState"}
 
-func optStr(s string, err error) string {
+func optStr(p, s string, err error) string {
 	if err != nil {
 		return "None"
 	}
-	return hlib.Some(hlib.Str(s))
+	return hlib.Some(osub(p, s))
 }
 
 // c38observe runs the real functions; only (ok?, values) are projected, never error text.
@@ -102,12 +166,12 @@ func c38observe(p string) (coq string, accepted []string, sample map[string]stri
 	if err != nil {
 		f = append(f, "None")
 	} else {
-		f = append(f, hlib.Some(hlib.Pair(hlib.Str(pt.String()), hlib.Str(string(st)))))
+		f = append(f, hlib.Some(hlib.Pair(osub(p, pt.String()), osub(p, string(st)))))
 		accepted = append(accepted, "ParsePath")
 		sample["parse"] = pt.String() + "/" + string(st)
 	}
 	repo, err := dockerregistry.GetRepo(p)
-	f = append(f, optStr(repo, err))
+	f = append(f, optStr(p, repo, err))
 	if err == nil {
 		accepted = append(accepted, "GetRepo")
 		sample["repo"] = repo
@@ -116,27 +180,27 @@ func c38observe(p string) (coq string, accepted []string, sample map[string]stri
 	if err != nil {
 		f = append(f, "None")
 	} else {
-		f = append(f, hlib.Some(hlib.Pair(hlib.Str(tag), hlib.B(cur))))
+		f = append(f, hlib.Some(hlib.Pair(osub(p, tag), hlib.B(cur))))
 		accepted = append(accepted, "GetManifestTag")
 		sample["tag"] = fmt.Sprintf("%q current=%v", tag, cur)
 	}
 	bd, err := dockerregistry.GetBlobDigest(p)
-	f = append(f, optStr(bd.Hex(), err))
+	f = append(f, optStr(p, bd.Hex(), err))
 	if err == nil {
 		accepted = append(accepted, "GetBlobDigest")
 	}
 	ld, err := dockerregistry.GetLayerDigest(p)
-	f = append(f, optStr(ld.Hex(), err))
+	f = append(f, optStr(p, ld.Hex(), err))
 	if err == nil {
 		accepted = append(accepted, "GetLayerDigest")
 	}
 	md, err := dockerregistry.GetManifestDigest(p)
-	f = append(f, optStr(md.Hex(), err))
+	f = append(f, optStr(p, md.Hex(), err))
 	if err == nil {
 		accepted = append(accepted, "GetManifestDigest")
 	}
 	uu, err := dockerregistry.GetUploadUUID(p)
-	f = append(f, optStr(uu, err))
+	f = append(f, optStr(p, uu, err))
 	if err == nil {
 		accepted = append(accepted, "GetUploadUUID")
 		sample["uuid"] = uu
@@ -145,10 +209,10 @@ func c38observe(p string) (coq string, accepted []string, sample map[string]stri
 	if err != nil {
 		f = append(f, "None")
 	} else {
-		f = append(f, hlib.Some(hlib.Pair(hlib.Str(al), hlib.Str(of))))
+		f = append(f, hlib.Some(hlib.Pair(osub(p, al), osub(p, of))))
 		accepted = append(accepted, "GetUploadAlgoAndOffset")
 	}
-	return "(mkobs " + strings.Join(f, " ") + ")", accepted, sample
+	return "(mkrobs " + strings.Join(f, " ") + ")", accepted, sample
 }
 
 // ---- component generators (docker/distribution reference grammar) ----
@@ -199,7 +263,12 @@ func c38tag(r *hlib.Rng) string {
 	return s + c38alnum(r, n, allAlnum+"_.-")
 }
 
-func c38hex(r *hlib.Rng) string { return c38alnum(r, 64, "0123456789abcdef") }
+func c38hex(r *hlib.Rng) string {
+	if r.Chance(85) {
+		return c38digests[r.Intn(len(c38digests))]
+	}
+	return c38alnum(r, 64, "0123456789abcdef")
+}
 
 func c38uuid(r *hlib.Rng) string {
 	if r.Chance(15) {
@@ -351,7 +420,7 @@ func c38(ctx *hlib.Ctx) {
 		b := "None"
 		hist := []string{}
 		if built != nil {
-			b = hlib.Some(built.coq())
+			b = hlib.Some(built.coq(p))
 			hist = append(hist, "built:"+built.kind)
 			sample["built"] = built.kind
 		} else {
@@ -364,7 +433,7 @@ func c38(ctx *hlib.Ctx) {
 			hist = append(hist, "accepted:"+a)
 		}
 		sort.Strings(tags)
-		ctx.Emit(hlib.Case{Coq: "mkcase " + hlib.Str(p) + " " + b + " " + obs, NT: len(acc) > 0, Kind: kind, Key: p,
+		ctx.Emit(hlib.Case{Coq: "mkcase " + pathTerm(p) + " " + b + " " + obs, NT: len(acc) > 0, Kind: kind, Key: p,
 			Hist: hist, Sample: sample, Tags: tags})
 	}
 	built := func(k c38pk, kind string) {
